@@ -70,3 +70,65 @@ Print Assumptions C04_accepted_schema_cursor_table_exists.
 Theorem C04_accepted_schema_cursor_table_consistent : stmt_compile_clevel_wf.
 Proof. exact compile_clevel_wf. Qed.
 Print Assumptions C04_accepted_schema_cursor_table_consistent.
+
+From Sbepp Require Import CursorScript CursorScriptProofs.
+
+(* SEQUENCES of cursor calls with mixed wrappers on the members of one level
+   view (CursorScript.run_script / run_cur is what the correspondence driver
+   executes).  On the image of any well-formed value tree, embedded anywhere
+   in a buffer: *)
+
+(* one call: an init-type wrapper, the first variable-length member, or a call
+   made at the required position returns the random-access address (= where the
+   image puts the member) and leaves the cursor at the documented position;
+   any other plain / dont_move / skip call is reported *)
+Theorem C04_call_on_image : stmt_run_lop_image.
+Proof. exact run_lop_image. Qed.
+Print Assumptions C04_call_on_image.
+
+(* the documented position after a moving call is the position the next
+   member in schema order requires *)
+Theorem C04_chain_field_to_next_field : stmt_chain_field_field.
+Proof. exact chain_field_field. Qed.
+Print Assumptions C04_chain_field_to_next_field.
+Theorem C04_chain_last_field_to_block_end : stmt_chain_last_field.
+Proof. exact chain_last_field. Qed.
+Print Assumptions C04_chain_last_field_to_block_end.
+Theorem C04_chain_group_skip_to_next_group : stmt_chain_group_group.
+Proof. exact chain_group_group. Qed.
+Print Assumptions C04_chain_group_skip_to_next_group.
+Theorem C04_chain_last_group_to_first_data : stmt_chain_last_group_data.
+Proof. exact chain_last_group_data. Qed.
+Print Assumptions C04_chain_last_group_to_first_data.
+Theorem C04_chain_data_to_next_data : stmt_chain_data_data.
+Proof. exact chain_data_data. Qed.
+Print Assumptions C04_chain_data_to_next_data.
+Theorem C04_chain_empty_group : stmt_chain_empty_group.
+Proof. exact chain_empty_group. Qed.
+Print Assumptions C04_chain_empty_group.
+Theorem C04_chain_end_of_level : stmt_chain_end_of_level.
+Proof. exact chain_end_of_level. Qed.
+Print Assumptions C04_chain_end_of_level.
+
+(* any legal forward sequence: every call returns the random-access address
+   and the documented cursor; the first misplaced plain / dont_move / skip call
+   after a legal prefix is reported and nothing after it runs *)
+Theorem C04_legal_sequence_equals_random_access : stmt_run_script_legal.
+Proof. exact run_script_legal. Qed.
+Print Assumptions C04_legal_sequence_equals_random_access.
+
+Theorem C04_sequence_misuse_reported : stmt_run_script_misuse.
+Proof. exact run_script_misuse. Qed.
+Print Assumptions C04_sequence_misuse_reported.
+
+(* the schema-order script (fields plain, groups skip, data plain) is legal
+   and ends at the end of the level *)
+Theorem C04_schema_order_script_is_legal : stmt_schema_script_legal.
+Proof. exact schema_script_legal. Qed.
+Print Assumptions C04_schema_order_script_is_legal.
+
+(* the same for the level at any path of an encoded message (what the `cur`
+   command of the correspondence driver runs) *)
+Theorem C04_legal_sequence_at_any_path : stmt_run_cur_legal.
+Proof. exact run_cur_legal. Qed.
+Print Assumptions C04_legal_sequence_at_any_path.
